@@ -398,16 +398,19 @@ func (r *Router) AddChunkFilter(filter ChunkFilter) {
 func (r *Router) assignIPAddress() (net.IP, error) {
 	// See: https://stackoverflow.com/questions/14915188/ip-address-ending-with-zero
 
-	if r.lastID == 0xfe {
-		return nil, errAddressSpaceExhausted
+	for r.lastID != 0xfe {
+		ip := make(net.IP, 4)
+		copy(ip, r.ipv4Net.IP[:3])
+		r.lastID++
+		ip[3] = r.lastID
+
+		// skip addresses already held by a NIC (e.g. assigned statically)
+		if _, inUse := r.nics[ip.String()]; !inUse {
+			return ip, nil
+		}
 	}
 
-	ip := make(net.IP, 4)
-	copy(ip, r.ipv4Net.IP[:3])
-	r.lastID++
-	ip[3] = r.lastID
-
-	return ip, nil
+	return nil, errAddressSpaceExhausted
 }
 
 func (r *Router) push(c Chunk) {
